@@ -29,8 +29,9 @@ def gen_cases(tier, seed):
     return cases
 
 
-def build_list(rng, acc, n):
+def build_list(rng, acc, n, focus=None):
     g = opgen.Gen(rng, acc)
+    g.focus = focus
     specs = []
     base = g.op_list(max(1, n // 3))
     for s in base:
@@ -80,7 +81,7 @@ def run_direct(case):
     for li in range(case["lists"]):
         acc = ACCS[int(rng.integers(0, 6))]
         n = int(rng.integers(1, 31))
-        specs = build_list(rng, acc, n)
+        specs = build_list(rng, acc, n, case.get("focus"))
         ops, blks, kept = [], [], []
         for s in specs:
             try:
